@@ -43,7 +43,7 @@ def strategy(tier):
         c = {"tree": t, "P": P, "creator": creator, "route": route,
              "opts": draw(edits.create_options(cli_safe=cli)),
              "edits": draw(st.lists(edits.edit_request(), min_size=0, max_size=5))}
-        if draw(st.integers(0, 4)) == 0:
+        if draw(st.sampled_from([True] + [False] * 4)):
             # a foreign, canonical metafile with unknown (nested) keys, then edited: what edit writes must be canonical too
             c["foreign"] = draw(c07.source_strategy().filter(lambda s: s["kind"] == "ref"))
             c["edits"] = draw(st.lists(edits.edit_request(), min_size=1, max_size=5))
